@@ -18,3 +18,8 @@ package slice
 //@   fresh r
 //@   assigns nothing
 //@   ensures [C02.ones] len(r) == ndims && forall(k, 0, ndims, r[k] == 1)
+
+//@ func Equal(lhs, rhs) returns (r)
+//@   assigns nothing
+//@   ensures [C08.shape-equal] iff(r, len(lhs) == len(rhs) && forall(k, 0, len(lhs), lhs[k] == rhs[k]))
+//@   loop 0 invariant [C08.shape-equal-loop] -1 <= rangeindex && rangeindex < len(lhs) && len(lhs) == len(rhs) && forall(k, 0, rangeindex + 1, lhs[k] == rhs[k])
